@@ -137,7 +137,9 @@ Plan gen(uint64_t seed, const std::string& tier) {
             // State that leaks between instances through anything keyed by "similar" parameters shows up as a mismatch.
             Op tw = op;
             tw.a[A_CSEED] = r.seed32();
-            tw.a[A_DSEED] = r.seed32();
+            if (r.chance(0.5)) {
+                tw.a[A_DSEED] = r.seed32();   // otherwise the twin is fed the SAME samples (anything keyed by sample values alone would be shared)
+            }
             tw.a[A_FSEED] = r.seed32();
             for (int k = 0; k < 6; ++k) {
                 const double v = tw.a[size_t(A_P0 + k)];
